@@ -9,7 +9,7 @@ import sys
 import time
 
 ROOT = os.path.dirname(os.path.dirname(os.path.abspath(__file__)))
-EVID = os.path.join(ROOT, "evidence")
+EVID = os.path.join(ROOT, "evidence") if not os.environ.get("VERIF_NOEVIDENCE") else os.path.join("/tmp", "rtflite-verif-trial-evidence-%d" % os.getpid())
 REPLAY = os.path.join(EVID, "replay")
 KNOWN = os.path.join(ROOT, "known_findings.json")
 REPO_SRC = os.environ.get("RTFLITE_SRC", "/repo/src")
